@@ -115,7 +115,17 @@ def r1(ctx):
         ok = ok and okv and okpos
     ctx.ob(f.qual, "compression-points-to-the-root", ok, f.loc(), "path compression only re-points nodes to the root found by the completed upward walk" if ok else "_find_node assigns a .parent that is not the terminated root")
     rets = [n for n in walk_function(f.node) if isinstance(n, ast.Return)]
-    ok = len(rets) == 1 and isinstance(rets[0].value, ast.Name) and rets[0].value.id in root_names
+    ok = bool(rets)
+    for r_ in rets:
+        if not isinstance(r_.value, ast.Name):
+            ok = False
+            continue
+        nm_ = r_.value.id
+        ga_ = guard_atoms(fcfg, fcfg.node_of(r_))
+        after_walk = nm_ in root_names and len(walks) == 1 and fcfg.dominates(fcfg.node_of(walks[0][0]), fcfg.node_of(r_))
+        known_root = ("None is %s.parent" % nm_, True) in ga_  # `if node.parent is None: return node`
+        if not (after_walk or known_root):
+            ok = False
     ctx.ob(f.qual, "returns-the-root", ok and len(walks) == 1, f.loc(), "_find_node walks parent links until None and returns that node" if ok and walks else "_find_node does not return the node whose parent is None")
     fd = ctx.func(G + ".find")
     rets = [n for n in walk_function(fd.node) if isinstance(n, ast.Return)]
